@@ -115,6 +115,21 @@ CHECKS = {
          'latex_verbatim have the documented shape.'),
    note='That the spans produced by different cooperating parsers tile the input (no gap/overlap between siblings) is a run-time relation between sites and is not decided.',
    technique='affine span normalisation at construction sites, def-use field forwarding, path-sensitive must-consume analysis of the token dispatcher, paired-truncation rule'),
+ 'C02': dict(level='other', design='DESIGN.md section 5, C02',
+   text=('Decides the dispatch skeleton of the parser: every token kind the reader can emit has a handler in the collector '
+         'and the expression parser and is routed to its parse_* method; every standard argument letter builds the parser of '
+         'its kind and optionality; one slot per declared argument; every closing predicate tests token kind and expected '
+         'closer and content parsers require it; promoted delimiters are restored for children; absent optional arguments '
+         'restore the reader including whitespace; default-table facts named by the property.'),
+   note='Equality of the produced tree with the grammar derivation of the document is not decided.',
+   technique='AST exhaustiveness (emitted vs handled token kinds, signature letters vs branches), guard-fact analysis of closing predicates, table evaluation'),
+ 'C10': dict(level='other', design='DESIGN.md section 5, C10',
+   text=('Decides where the mode of a node is determined: math parser contents state and recorded fields, walker events, '
+         'per-argument/body deltas, default-table modes, delimiter choice in the token reader, plus two discipline rules '
+         'over all parse functions (the given parsing_state is never re-bound; state factories return states derived from '
+         'their argument, never a remembered one).'),
+   note='Run-time inheritance of the mode through user-supplied child-state factories is not decided.',
+   technique='AST def-use of parsing-state flow (no re-binding, derived-from-argument), shape rules on math parser/events, table evaluation'),
 }
 
 NOT_YET = {}
